@@ -219,6 +219,12 @@ def run(repo: Repo, chk: Check) -> None:
     chk.ob('R-FLOW', rq, ok, 'READ_TICKET pushes the description and the same ticket once', repo.find_method(rq, 'execute').loc,
            {'stack': [vrepr(x)[:60] for x in res[0].value['stack']] if res and res[0].outcome == 'return' else None}, what='READ_TICKET duplicates or loses the ticket')
 
+    # ---- memory across calls / inside a ticket (shared rule, sa/statelint.py) --------------------------------------------------------------
+    chk.set_clause('C20.M')
+    from ..statelint import check_memory
+    check_memory(repo, chk, [f'{T}.ticket.', f'{I}.ticket.'],
+                 'a ticket answers with an amount it had before it was split or joined: more (or less) is in circulation than was created')
+
 
 def _pushed_once_per_path(repo: Repo, q: str) -> bool:
     """Path-based: run the instruction on tagged values and count occurrences of each original item on the final stack."""
@@ -294,8 +300,13 @@ class _CopyHooks(Hooks):
             if n == 'format_stdout':
                 return 'stdout'
             if n == 'is_duplicable':
+                recv = callee.self_val
+                tag = getattr(recv, 'tag', '') or (recv.qual.rsplit('.', 1)[-1] if isinstance(recv, ClassRef) else '')
+                if tag in ('other', 'z', 'UnitType', 'NatType'):
+                    it.event('is_duplicable-of-another-value', tag)
+                    return True  # the neighbours on the stack are plain duplicable values (of other classes than the value under test)
                 d = it.choose(2) == 0
-                it.event('is_duplicable', vrepr(callee.self_val)[:40], d)
+                it.event('is_duplicable', vrepr(recv)[:40], d)
                 return d
             if n in ('assert_type_equal', 'assert_type_in'):
                 return None
@@ -348,7 +359,7 @@ def _copy_paths(repo: Repo, chk: Check) -> None:
             def go(i, q=q, ex=ex, iq=iq, depth=depth):
                 fields = {'items': [], 'ptr': Sym('ptr'), 'removed_keys': [], 'context': Sym('context')} if q.endswith('BigMapType') else {'value': Sym('payload')}
                 v = Obj(q, fields, tag='the-value')
-                st = mk_stack(([Obj(MT, {'value': Sym('other')}, tag='other')] * depth) + [v, Obj(MT, {'value': Sym('z')}, tag='z')])
+                st = mk_stack(([Obj(f'{T}.core.UnitType', {}, tag='other')] * depth) + [v, Obj(f'{T}.core.NatType', {'value': Sym('z')}, tag='z')])
                 i.call_function(FuncRef(ex, ClassRef(iq), True), [st, [], Sym('context')], {}, None, force_inline=True)
                 return list(st.fields['items'])
 
